@@ -6,7 +6,8 @@ What is extracted (the hand model `Context/Model.lean` is *defined in terms of* 
   ctxOperands    operand order of the dict display in Logger.contextualize
   patchOperands  operand order of the list display in Logger.patch
   logPhases      relative order of `core.patcher(...)`, `for patcher in patchers`, `for handler in ...emit`
-  optDefaults    the defaults of opt()'s keyword-only parameters
+  optDefaults    the defaults of opt()'s keyword-only parameters (checked equal to the root logger's
+                 options in loguru/__init__.py, which also has patchers=[] and extra={})
 
 What is only checked for shape (fail closed, nothing generated from it):
   * `context` is a module-level `ContextVar(..., default={})`, `ContextVar` comes from `._contextvars`,
@@ -228,7 +229,21 @@ def generate():
             if defaults["exception"] in (None, False, True) else None
         if exc is None or not isinstance(defaults["depth"], int) or isinstance(defaults["depth"], bool):
             raise Unsupported("opt defaults of exception/depth")
-        body += "/-- defaults of `opt()`'s keyword-only parameters -/\n"
+        # the root logger of loguru/__init__.py is built with exactly these defaults, no patcher, no extra
+        itree, _ = parse_module("__init__.py")
+        root = None
+        for node in itree.body:
+            if isinstance(node, ast.Assign) and _u(node.targets[0]) == "logger" and isinstance(node.value, ast.Call):
+                root = node.value
+        if root is None or _u(root.func) != "_Logger" or root.args:
+            raise Unsupported("__init__.py: `logger = _Logger(...)` with keyword arguments not found")
+        rootkw = {k.arg: _u(k.value) for k in root.keywords}
+        wantkw = {"core": "_Core()", "patchers": "[]", "extra": "{}"}
+        for name in OPTION_NAMES[:7]:
+            wantkw[name] = repr(defaults[name])
+        if rootkw != wantkw:
+            raise Unsupported("__init__.py: root logger options %r differ from opt() defaults %r" % (rootkw, wantkw))
+        body += "/-- defaults of `opt()`'s keyword-only parameters (= the options of the root logger) -/\n"
         body += ("def optDefaults : Flags := { exception := %d, depth := %d, record := %s, lazy := %s, "
                  "colors := %s, raw := %s, capture := %s }\n\n") % (
             exc, defaults["depth"], b(defaults["record"]), b(defaults["lazy"]), b(defaults["colors"]),
@@ -368,4 +383,4 @@ def generate():
     except (Unsupported, SyntaxError, KeyError, AttributeError, IndexError, OSError) as e:
         errors.append("%s: %s" % (type(e).__name__, e))
     body += "end Context.Gen\n"
-    return emit("Context", body, ["loguru/_logger.py", "loguru/_contextvars.py"], errors)
+    return emit("Context", body, ["loguru/_logger.py", "loguru/_contextvars.py", "loguru/__init__.py"], errors)
